@@ -150,7 +150,7 @@ func randomScenario(rng interface{ Intn(int) int }, n int) (Cfg, Faults, int) {
 				k += rng.Intn(c.Batch - 1)
 			}
 			f.Fetch[key] = append(f.Fetch[key], k) // short read
-			if rng.Intn(3) == 0 {                   // and the remainder comes short / empty again
+			if rng.Intn(3) == 0 {                  // and the remainder comes short / empty again
 				rk := fmt.Sprintf("%d:%d", pass, start+k)
 				f.Fetch[rk] = append(f.Fetch[rk], []int{1, -3}[rng.Intn(2)])
 			}
@@ -197,7 +197,6 @@ func randomScenario(rng interface{ Intn(int) int }, n int) (Cfg, Faults, int) {
 	}
 	return c, f, restarts
 }
-
 
 // TestTrace runs random scenarios on the real Controller and records the traces; the driver has
 // MigrillianTrace.tla validate traces.ndjson.  Runs in which the oracle-free monitor saw a quota reply
@@ -285,9 +284,9 @@ func TestTrace(t *testing.T) {
 type Beh struct {
 	Cfg struct {
 		Src0, Growth, DestLen, DestInt, Batch, Fetchers, Submitters, Start, ForkAt int
-		Bad                                                                      []int
-		Cont, Forked                                                             bool
-		Mode                                                                     string
+		Bad                                                                        []int
+		Cont, Forked                                                               bool
+		Mode                                                                       string
 	} `json:"cfg"`
 	Hist []struct {
 		Ev     string `json:"ev"`
@@ -351,12 +350,18 @@ func schedule(b Beh, idx int) (c Cfg, f Faults, restarts int, clean bool, covere
 			switch {
 			case e.Code != "OK":
 				f.Fetch[key] = append(f.Fetch[key], -1-idx%2)
+			case e.N == 0: // the empty page; the pass fails on it while other calls are still in flight
+				f.Fetch[key] = append(f.Fetch[key], -3-idx%3)
+				clean = false
 			case e.N < e.End-e.Start+1:
 				f.Fetch[key] = append(f.Fetch[key], e.N)
 			default:
 				f.Fetch[key] = append(f.Fetch[key], 0)
 			}
 		case "Add":
+			if e.N == 0 {
+				break // a request without leaves: the destination refuses it by itself, nothing to script
+			}
 			f.Add[key] = append(f.Add[key], e.Code)
 			if e.Code != "OK" && e.Code != "ResourceExhausted" {
 				clean = false
